@@ -362,3 +362,13 @@ def c06_7(ctx):
 def c06_8(ctx):
     from . import C01 as _c01
     _c01.check_dict_concat(ctx)
+
+
+@obligation('C06.9', 'TABLES (guards by truth table)', '_dictable:_row_check (the case split of exc)',
+            'a filter value selects its case by WHAT IT IS - None, NaN, a regex, anything else a list of admissible values - never by truthiness: 0, 0.0, "" and [] are ordinary values (exc(a = 0) excludes the rows whose a is 0, not the rows whose a is None)',
+            axioms=())
+def c06_9(ctx):
+    f = ctx.repo.fn('_dictable:_row_check')
+    value = f.params[2]
+    none_not_falsy(ctx, f, [value], 'a falsy filter value (0, 0.0, the empty string) is an ordinary value to match, not "no value"')
+    expect_guards(ctx, f, [('%s is None' % value, 'return v is None', 'None selects the None cells'), ('is_nan(%s)' % value, 'return is_nan(v)', 'NaN selects the NaN cells')], where=f.body)
